@@ -464,7 +464,9 @@ class MarkdownNormalizer(Renderer):
         for i, child in enumerate(element.children):
             # Configure the appropriate prefix based on list type
             if element.ordered:
-                num = i + element.start
+                # A list marker has at most nine digits; a longer number would not be read
+                # as a marker (the numbers of later items do not matter to a reader).
+                num = min(i + element.start, 999_999_999)
                 prefix = f"{num}. "
                 subsequent_indent = " " * (len(str(num)) + 2)
             else:
